@@ -31,6 +31,12 @@ void ABTD_futex_timedwait_and_unlock(ABTD_futex_multiple *p_futex,
 {
     const int original_val = ABTD_atomic_relaxed_load_int(&p_futex->val);
     ABTD_spinlock_release(p_lock);
+#ifdef ABT_VERIF
+    /* Under a virtual clock sleep only briefly in real time; callers re-check
+     * the (virtual) clock after every wake-up. */
+    if (ABTI_verif_hooks.clock && wait_time_sec > 0.0005)
+        wait_time_sec = 0.0005;
+#endif
     struct timespec wait_time; /* This wait_time must be **relative**. */
     wait_time.tv_sec = (time_t)wait_time_sec;
     wait_time.tv_nsec =
